@@ -159,6 +159,7 @@ package golang
 //@ ensures [dbframe] forall k Bytes :: (forall i int :: 0 <= i && i < len(rulesData) ==> k != attKey(bytes(rulesData[i].PubKey))) ==> ((k in db) <==> old(k in db)) && db[k] == old(db[k])
 //@ ensures [att-compl] store_ok && credentials != nil && credentials.Client != "" && (forall j int :: 0 <= j && j < len(rulesData) ==> rulesData[j].AccountName != "" && hastype(rulesData[j].Data, "*rules.SignBeaconAttestationData")) && (forall j int :: 0 <= j && j < len(rulesData) ==> old(wmAttOk(bytes(rulesData[j].PubKey)))) ==> (forall i int :: 0 <= i && i < len(rulesData) && attOK(old(wmAttS(bytes(rulesData[i].PubKey))), old(wmAttT(bytes(rulesData[i].PubKey))), unbox(rulesData[i].Data, "*rules.SignBeaconAttestationData").Source.Epoch, unbox(rulesData[i].Data, "*rules.SignBeaconAttestationData").Target.Epoch, prefix4(unbox(rulesData[i].Data, "*rules.SignBeaconAttestationData").Domain)) ==> result[i] == rules.APPROVED)
 //@ hint-after before:OnSignBeaconAttestations@1 [ready] credentials != nil && credentials.Client != "" && (forall j int :: 0 <= j && j < len(rulesData) ==> rulesData[j].AccountName != "" && hastype(rulesData[j].Data, "*rules.SignBeaconAttestationData")) ==> len(metadatas) == len(reqData) && (forall j int :: 0 <= j && j < len(rulesData) ==> metadatas[j] != nil && reqData[j] != nil && metadatas[j].PubKey == rulesData[j].PubKey && reqData[j] == unbox(rulesData[j].Data, "*rules.SignBeaconAttestationData") && reqData[j].Source != nil && reqData[j].Target != nil)
+//@ hint-after before:OnSignBeaconAttestations@1 [hyp] store_ok && credentials != nil && credentials.Client != "" && (forall j int :: 0 <= j && j < len(rulesData) ==> rulesData[j].AccountName != "" && hastype(rulesData[j].Data, "*rules.SignBeaconAttestationData")) && (forall j int :: 0 <= j && j < len(rulesData) ==> wmAttOk(bytes(rulesData[j].PubKey))) ==> store_ok && len(metadatas) == len(reqData) && (forall j int :: 0 <= j && j < len(reqData) ==> metadatas[j] != nil && reqData[j] != nil && reqData[j].Source != nil && reqData[j].Target != nil && wmAttOk(bytes(metadatas[j].PubKey)))
 //@ loop #1
 //@ invariant [range] 0 <= _n && _n <= len(rulesData) && len(results) == len(rulesData) && fresh(results)
 //@ invariant [unknown] forall j int :: 0 <= j && j < _n ==> results[j] == rules.UNKNOWN
